@@ -19,7 +19,8 @@ RULE = ("complete walk of dateparser.timezones.timezone_info_list read as data: 
         "string in which no table regex matches must parse naive. non-trivial distinct = distinct "
         "(table entry, spelling, body, mode) whose zone was popped by pop_tz_offset_from_string (tap).")
 EXHAUSTIVE = {"quick": True, "thorough": True}
-ASSUMPTIONS = ["expected offsets are read from timezone_info_list (the property says 'the listed one')"]
+ASSUMPTIONS = ["'the listed one' = the abbreviation table of the pinned commit, committed as rv/data/tz_table.json (entries a tree "
+               "adds are walked with the tree's own value); a numeric spelling's offset is computed from its digits"]
 TIMEOUT = {"quick": 600, "thorough": 1800}
 
 ANCHORS = [("dateparser.timezone_parser", "StaticTzInfo.__getinitargs__"),
@@ -32,13 +33,33 @@ BODIES = [("2015-05-12 10:30", datetime(2015, 5, 12, 10, 30)),
 
 
 def table():
-    from dateparser.timezones import timezone_info_list
+    """The supported offsets and the abbreviation table. The authority is the copy committed with the checks (the table of the
+    pinned commit): the offset of a numeric spelling is what its digits say and an abbreviation's offset is the one listed for it,
+    so a tree that edits or reorders its table does not move the expectation. Entries the tree lists in addition are walked
+    too, with the tree's own value."""
+    import json
+    import os
 
-    offsets = list(timezone_info_list[0]["timezones"])
-    abbr = OrderedDict()
-    for info in timezone_info_list[1:]:
-        for name, off in info["timezones"]:
-            abbr.setdefault(name, []).append(off)
+    with open(os.path.join(os.path.dirname(os.path.dirname(os.path.abspath(__file__))), "data", "tz_table.json")) as f:
+        d = json.load(f)
+    offsets = []
+    for pat, _ in d["offsets"]:
+        m = _re.match(r"UTC\\([+-])(\d\d):(\d\d)", pat)
+        offsets.append((pat, (1 if m.group(1) == "+" else -1) * (int(m.group(2)) * 3600 + int(m.group(3)) * 60)))
+    abbr = OrderedDict((k, list(v)) for k, v in d["abbr"].items())
+    try:
+        from dateparser.timezones import timezone_info_list
+
+        have = {p for p, _ in offsets}
+        for pat, off in timezone_info_list[0]["timezones"]:
+            if pat not in have and _re.match(r"UTC\\([+-])(\d\d):(\d\d)", pat):
+                offsets.append((pat, off))
+        for info in timezone_info_list[1:]:
+            for name, off in info["timezones"]:
+                if name not in d["abbr"]:
+                    abbr.setdefault(name, []).append(off)
+    except Exception:
+        pass
     return offsets, abbr
 
 
